@@ -33,6 +33,7 @@ VERIF = os.path.dirname(os.path.dirname(os.path.abspath(__file__)))
 NSHARDS = int(os.environ.get("VERIF_SHARDS", "16"))
 # development aid for loaded machines: stretches the wall-clock safety nets (never the case counts)
 BUDGET_MULT = float(os.environ.get("VERIF_BUDGET_MULT", "1") or 1)
+THOROUGH_FACTOR = int(os.environ.get("VERIF_THOROUGH_FACTOR", "5") or 5)
 
 
 # --------------------------------------------------------------------------- outcome
@@ -234,6 +235,10 @@ def _worker(check_id: str, tier: str, seed: int, shard: int, nshards: int, conn)
             frag.record(case, "pinned")
         strat = check.strategy(tier)
         n = check.examples(tier)
+        if tier == "thorough":
+            # The thorough tier explores the same generator domain more deeply, but only as far as its baseline
+            # on the unchanged tree could be established in the build round (DESIGN 1.2): THOROUGH_FACTOR x quick.
+            n = min(n, THOROUGH_FACTOR * max(1, check.examples("quick")))
         if strat is not None and n > 0:
             import hypothesis
             from hypothesis import HealthCheck, Phase, given, settings
